@@ -22,7 +22,7 @@ theorem options_transparent (P : Profile) (o : Opts) (mode : Mode) (g : Globals)
     a.1.st.file.map FileSt.core = b.1.st.file.map FileSt.core ∧
     a.1.st.glob = b.1.st.glob := by
   simp only [decode]
-  generalize runBuffered (decodeProg P mode g) (BufSt.ofReader r) = res
+  generalize runBuffered (decodeProg P mode g) r = res
   obtain ⟨out, b⟩ := res
   simp only [finalize]
   by_cases hu : out.st.unkInit <;> simp [hu]
